@@ -35,6 +35,8 @@ struct Proc {
     virtual ~Proc() {}
     virtual void run(const double* in, int units, std::vector<double>& out, std::vector<double>& out2) = 0;
     virtual uint64_t state() { return 0; }
+    // a call that the processor must reject for a reason other than the frame length (-1: none defined, 1: threw, 0: accepted)
+    virtual int misuse() { return -1; }
 };
 
 static arr_real mkreal(const double* in, int n, int stride = 1, int off = 0) {
@@ -106,6 +108,14 @@ struct AR : Proc {   // adaptive, real (x,d) pairs -> {y,e}
         put(out2, r.e);
     }
     uint64_t state() override { return sf(o); }
+    int misuse() override {   // x and d of different length
+        try {
+            o.process(arr_real{0.5, -0.25, 4.0}, arr_real{1.0, 2.0});
+        } catch (const std::exception&) {
+            return 1;
+        }
+        return 0;
+    }
 };
 template<class Obj, class StateFn>
 struct AC : Proc {   // adaptive, complex (x,d)
@@ -118,6 +128,14 @@ struct AC : Proc {   // adaptive, complex (x,d)
         put(out2, r.e);
     }
     uint64_t state() override { return sf(o); }
+    int misuse() override {
+        try {
+            o.process(arr_cmplx{cmplx_t(0.5, 1), cmplx_t(-3, 0.25)}, arr_cmplx{cmplx_t(1, 1)});
+        } catch (const std::exception&) {
+            return 1;
+        }
+        return 0;
+    }
 };
 // MAFilter is an internal class (lib/ma-filter.h) with process(array)
 template<class T>
@@ -448,7 +466,8 @@ int main(int argc, char** argv) {
             }
         }
         // ---------------- mode reject: a frame of a non-documented granularity is rejected and must leave the object unchanged
-        if (c.strict && ctx.take("frame.reject", P().kv("config", c.name))) {
+        const bool has_misuse = (c.name.find("LMS") != std::string::npos || c.name.find("RLS") != std::string::npos);
+        if ((c.strict || has_misuse) && ctx.take("frame.reject", P().kv("config", c.name))) {
             const int G = 6;
             auto stream = make_stream(c, G, 0);
             RunOut ref = run_frames(c, stream, {G}, nullptr);
@@ -458,8 +477,12 @@ int main(int argc, char** argv) {
             try {
                 auto p = c.make();
                 for (int g = 0; g < G; ++g) {
+                    if (has_misuse) {
+                        ++attempts;
+                        if (p->misuse() == 1) ++rejected;
+                    }
                     for (int bad : {c.granule - 1, c.granule + 1, 1, 2 * c.granule + 1}) {
-                        if (bad <= 0 || bad % c.granule == 0) continue;
+                        if (!c.strict || bad <= 0 || bad % c.granule == 0) continue;
                         ++attempts;
                         std::vector<double> o1, o2;
                         try {
@@ -480,7 +503,7 @@ int main(int argc, char** argv) {
             double worst = 0;
             bool bitid = true;
             if (rejected != attempts) {
-                ctx.fail(c.name.substr(0, c.name.find('(')).c_str(), fmt("%llu of %llu frames whose length is not a multiple of the granularity were accepted",
+                ctx.fail(c.name.substr(0, c.name.find('(')).c_str(), fmt("%llu of %llu calls that must be rejected (frame length not a multiple of the granularity / x and d of different length) were accepted",
                                                                          (unsigned long long)(attempts - rejected), (unsigned long long)attempts),
                          "rejected with an exception", P().kv("mode", "reject"));
             } else {
